@@ -384,6 +384,12 @@ def run_item(item) -> Acc:
         files = dict(list(files.items())[:24])
         files["pkg/dup_a.py"] = "import os\n\n\n" + _DUP.format(name="first_total")
         files["lib/dup_b.py"] = "import sys\n\n\n" + _DUP.format(name="second_total")
+        # an extension-less script (python by its shebang) that takes part in a cross-file finding, and
+        # two files that only analyse with the process-wide limits the CLI entry point lifts
+        # (integer digits, recursion depth): real workers must see what the sequential run sees
+        files["tools/runner"] = "#!/usr/bin/env python3\nimport json\n\n\n" + _DUP.format(name="third_total")
+        files["pkg/hugeint.py"] = "BIG = " + "7" * 5000 + "\n\n\ndef show(n):\n    print(n, 3642)\n    return n * 3643\n"
+        files["lib/deep.ts"] = "export function deep(n: number): number {\n  console.log(n);\n  return n + " + "(" * 1500 + "3641" + ")" * 1500 + ";\n}\n"
         cfg = load.deep_merge(cfg, {"dry": {"enabled": True, "min_duplicate_lines": 4}})
         root = project({**files, ".thailint.yaml": yaml_dump(cfg)})
         for cmd in ("magic-numbers", "nesting", "improper-logging", "dry", "stringly-typed", "srp"):
@@ -394,6 +400,10 @@ def run_item(item) -> Acc:
             acc.valid()
             if seq["violations"]:
                 acc.nt(("realpool", cmd))
+            seen = {obs.relfile(v["file"], root, root) for v in (seq["violations"] or [])}
+            for need_cmd, need in (("magic-numbers", "pkg/hugeint.py"), ("magic-numbers", "lib/deep.ts"), ("improper-logging", "lib/deep.ts"), ("dry", "tools/runner")):
+                if cmd == need_cmd and need not in seen:
+                    raise RuntimeError(f"realpool item is vacuous: the sequential {cmd} run reports nothing in {need}")
             case = {"realpool": True, "cli": cmd, "files": sorted(files)}
             if seq["exit_code"] != par["exit_code"]:
                 acc.fail({"side": "cli", "command": cmd, "mode": "exit-code"}, case, seq["exit_code"], par["exit_code"], par["stderr"][-200:])
